@@ -266,10 +266,13 @@ class Monitor(object):
 
         def wrapper(comp, *a, **k):
             # every fifth call runs under a decimal context an embedding application may have set (see attach.HOSTILE; the
-            # ones with traps are left out here because the float-height shards compare Decimal with float by design)
+            # ones with traps are left out here because the float-height shards compare Decimal with float by design, and so
+            # are precisions below 9 digits)
             attach.AMB['n'] += 1
             hc = attach.hostile_context(attach.AMB['n']) if attach.AMB['current'] is None and not mon.busy else None
-            if hc is not None and hc[1].traps[decimal.FloatOperation]:
+            if hc is not None and (hc[1].traps[decimal.FloatOperation] or hc[1].prec < 9):
+                # bar heights are the caller's Decimals (the fine-bar shards use six significant digits): a precision below what
+                # the heights themselves carry changes `-height` in the ranking key, which is the caller's doing, not a defect
                 hc = None
             if hc is None:
                 return judged(comp, a, k)
